@@ -161,6 +161,21 @@ class Scratch:
         if r.returncode != 0:
             raise RuntimeError("rsync failed: " + r.stderr)
 
+    def vp_root(self):
+        """Snapshot of /verif/contracts and /verif/intrinsics inside the scratch directory: `@VERIF@` in contract modules
+        and include files points here, so that Kani's in-place concrete playback can never rewrite files under /verif."""
+        root = self.root / "vp"
+        if not root.exists():
+            for d in ("contracts", "intrinsics"):
+                if (VERIF / d).exists():
+                    shutil.copytree(VERIF / d, root / d)
+            for f in root.rglob("*"):
+                if f.is_file() and f.suffix in (".rs", ".inc"):
+                    t = f.read_text()
+                    if "@VERIF@" in t:
+                        f.write_text(t.replace("@VERIF@", str(root)))
+        return root
+
     def cleanup(self):
         if not self.keep:
             shutil.rmtree(self.root, ignore_errors=True)
@@ -186,7 +201,7 @@ class Scratch:
                 if fpath.name not in ("lib.rs", "mod.rs", "main.rs"):
                     # child of a non-mod-rs file: path attribute is relative to the file's directory
                     pass
-                dst.write_text(m.path.read_text().replace("@VERIF@", str(VERIF)) + PLAYBACK_PRELUDE)
+                dst.write_text(m.path.read_text().replace("@VERIF@", str(self.vp_root())) + PLAYBACK_PRELUDE)
                 tails.setdefault(m.file, []).append(
                     f'#[cfg({"all(kani, " + m.modcfg + ")" if m.modcfg else "kani"})] #[allow(unsafe_code, dead_code, unused_imports, unused, missing_docs, clippy::all)] #[path = "{dst}"] pub(crate) mod {m.name};')
                 for a in m.attrs:
